@@ -4,5 +4,6 @@ CONSTANTS MaxPages = 4
           MaxCalls = 14
           ShapeStops = TRUE
           Stream = TRUE
+          HaltInFetch = TRUE
 INVARIANTS Emit
 CHECK_DEADLOCK FALSE
